@@ -264,6 +264,11 @@ pub fn hostile_call(seed: u64, index: u64) -> Call {
         7 => Call::GetResolution(hostile_ids(rng)),
         8 => Call::NumCells(gen::hostile_res(rng)),
         9 => Call::CellArea(gen::hostile_res(rng)),
+        10 if rng.chance(0.25) => {
+            // a perfectly valid set between hostile calls (its result is judged with C08's coverage oracle)
+            let flavour = *rng.pick(&["antichain", "lowres", "complete"]);
+            Call::Compact(gen::cell_set(rng, flavour).iter().take(300).map(|c| encode(*c)).collect())
+        }
         10 => {
             let n = rng.below(24) as usize;
             let mut v: Vec<u64> = Vec::new();
@@ -431,6 +436,14 @@ pub fn validate(call: &Call, out: &Outcome) -> Vec<(&'static str, String)> {
             if input.iter().all(|i| is_canonical(*i)) {
                 if let Some(b) = v.iter().find(|k| !is_canonical(**k)) {
                     bad.push(("C14.invalid_result", format!("compact of canonical ids returned {:#018x}", b)));
+                } else if !input.is_empty() {
+                    // a valid call in the middle of hostile ones must still be right: same covered set (C08's oracle)
+                    let ins: Vec<MCell> = input.iter().filter_map(|i| decode(*i)).collect();
+                    let outs: Vec<MCell> = v.iter().filter_map(|i| decode(*i)).collect();
+                    let r = ins.iter().chain(outs.iter()).map(|c| c.res).max().unwrap_or(1).max(1);
+                    if coverage(&ins, r) != coverage(&outs, r) {
+                        bad.push(("C14.invalid_result", format!("compact of {} valid cells returned {} cells covering a different set", ins.len(), outs.len())));
+                    }
                 }
             } else if let Some(b) = v.iter().find(|k| !input.contains(k) && !is_canonical(**k)) {
                 bad.push(("C14.invalid_result", format!("compact produced a new id {:#018x} that is not canonical", b)));
